@@ -193,11 +193,18 @@ func TestC06(t *testing.T) {
 		c := &MutCase{ExecCase: *base, Repeat: rapid.IntRange(1, 3).Draw(t, "repeat")}
 		ev.Current("C06", c)
 		f0, out := checkC01(base)
-		if out == nil || out.Skip != "" || f0 != nil {
-			rec.Class("skip:clean-run-not-clean", 1)
+		if out == nil || out.Skip != "" {
+			rec.Class("skip:outside-domain", 1)
 			return
 		}
-		calls := recordCalls(out.Log)
+		var calls []callRecord
+		if f0 == nil {
+			calls = recordCalls(out.Log)
+		} else {
+			// the answer is already wrong (C01's business): no fault is derived from the run, but every mutation
+			// field must still have reached its service exactly once
+			rec.Class("clean-run-not-clean", 1)
+		}
 		if len(calls) >= 2 && rapid.IntRange(0, 1).Draw(t, "fault") == 0 {
 			cr := calls[rapid.IntRange(0, len(calls)-1).Draw(t, "faultcall")]
 			c.Faults = []Fault{{URL: cr.URL, Query: cr.Query, Occurrence: cr.Occurrence, Kind: rapid.SampledFrom([]string{"transport", "status500", "errors-no-data"}).Draw(t, "fkind")}}
